@@ -1,6 +1,7 @@
 package harness
 
 import (
+	"errors"
 	"fmt"
 	"strings"
 	"time"
@@ -17,7 +18,7 @@ func init() {
 	register(&Prop{
 		ID:    "C12",
 		Level: "exploration",
-		Rule: "case = (capability set with or without LITERAL-, 1..4 rounds of 1..6 pipelined client commands chosen so that RFC 9051 5.5 allows pipelining them: NOOP, STATUS on distinct mailboxes, UID FETCH / UID STORE on disjoint UIDs, CREATE/DELETE/SUBSCRIBE, NAMESPACE, UID SEARCH RETURN answered by ESEARCH with TAG, and ordered classes LIST, SEARCH, EXPUNGE, APPEND with accepted or refused literal; a scripted server that answers the groups in any order the RFC permits (order kept inside an ambiguity class), interleaves unilateral EXISTS / EXPUNGE / FLAGS / PERMANENTFLAGS / FETCH anywhere, and assigns OK / NO / BAD with and without response codes), segmentation and schedule. " +
+		Rule: "case = (capability set with or without LITERAL-, 1..4 rounds of 1..6 pipelined client commands chosen so that RFC 9051 5.5 allows pipelining them: NOOP, STATUS on distinct mailboxes, UID FETCH / UID STORE on disjoint UIDs, CREATE/DELETE/SUBSCRIBE, NAMESPACE, UID SEARCH RETURN answered by ESEARCH with TAG, and ordered classes LIST, SEARCH, EXPUNGE, APPEND with accepted or refused literal; between rounds optionally a SELECT of another mailbox (accepted or refused, with or without [CLOSED]) and an IDLE that the server accepts (updates, DONE) or refuses with a tagged NO/BAD instead of the continuation request; a scripted server that answers the groups in any order the RFC permits (order kept inside an ambiguity class), interleaves unilateral EXISTS / EXPUNGE / FLAGS / PERMANENTFLAGS / FETCH anywhere, and assigns OK / NO / BAD with and without response codes), segmentation and schedule. " +
 			"Oracle: reference interpretation of the exact transcript (per-tag status and data, mailbox summary, connection state). Non-trivial: at least one pipelined round was compared. Distinct: distinct event-log hashes.",
 		Components:   "real: imapclient.Client, internal/imapwire (woven); stub: conformant-but-adversarially-ordered scripted server (independent scanner on the command side), network, clock, scheduler",
 		Assumptions:  []string{"the caller pipelines only what RFC 9051 5.5 allows (Appendix C)", "state and mailbox summary are compared after a NOOP round trip, i.e. when every earlier server line has been processed"},
@@ -152,6 +153,17 @@ func runC12(r *R) {
 	for i := 0; i < nrounds; i++ {
 		resel = append(resel, reselect{do: t.Choose(3) == 0, closed: t.Choose(2) == 0, count: uint32(t.Choose(40)), refuse: t.Choose(4) == 0})
 	}
+	// after a round the caller may idle: the server accepts ("+", updates, DONE, tagged OK) or refuses the IDLE with a
+	// tagged NO/BAD instead of the continuation request (RFC 9051 6.3.13 allows any command to be refused)
+	type idleStep struct {
+		do     bool
+		status string // OK: accepted; NO/BAD: refused
+		nupd   int
+	}
+	var idles []idleStep
+	for i := 0; i < nrounds; i++ {
+		idles = append(idles, idleStep{do: t.Choose(3) == 0, status: []string{"OK", "OK", "NO", "BAD"}[t.Choose(4)], nupd: t.Choose(3)})
+	}
 	// the server's ordering / interleaving choices are drawn during the run from a private tape
 	// derived from the plan (drawn here so that the plan tape stays the single source of choices)
 	srvSeed := uint64(t.Choose(1 << 30))
@@ -198,6 +210,24 @@ func runC12(r *R) {
 			for ri, round := range rounds {
 				if !c12ServeRound(r, srv, st, round, model) {
 					return
+				}
+				if idles[ri].do {
+					if c, ok = srv.readCommand(); !ok {
+						return
+					}
+					if idles[ri].status != "OK" {
+						srv.send(c.Tag + " " + idles[ri].status + " idling is not possible now")
+					} else {
+						srv.send("+ idling")
+						for i := 0; i < idles[ri].nupd; i++ {
+							model.count += uint32(1 + st.Choose(3))
+							srv.send(fmt.Sprintf("* %d EXISTS", model.count))
+						}
+						if l, ok := srv.readLine(); !ok || string(l) != "DONE" {
+							return
+						}
+						srv.send(c.Tag + " OK idle done")
+					}
 				}
 				// the synchronising NOOP after each round
 				c, ok = srv.readCommand()
@@ -259,6 +289,31 @@ func runC12(r *R) {
 					c12CheckStatus(r, cmd)
 				}
 				compared = true
+				if idles[ri].do {
+					r.Probe("idle_" + strings.ToLower(idles[ri].status))
+					ic, err := c.Idle()
+					if idles[ri].status == "OK" {
+						if err != nil {
+							r.Violate("call-failed", "Idle", "IDLE after round %d failed although the server accepted it: %v", ri, err)
+							return
+						}
+						if err := ic.Close(); err != nil {
+							r.Violate("call-failed", "Idle", "IdleCommand.Close after round %d: %v", ri, err)
+							return
+						}
+						if err := ic.Wait(); err != nil {
+							r.Violate("status-mismatch", "Idle", "the server completed IDLE with OK, Wait returned %v", err)
+						}
+					} else {
+						var ie *imap.Error
+						if err == nil {
+							r.Violate("status-mismatch", "Idle", "the server refused IDLE with %s, Idle() returned nil", idles[ri].status)
+							ic.Close()
+						} else if !errors.As(err, &ie) || string(ie.Type) != idles[ri].status {
+							r.Violate("status-mismatch", "Idle", "the server refused IDLE with %s, Idle() returned %v", idles[ri].status, err)
+						}
+					}
+				}
 				if err := c.Noop().Wait(); err != nil {
 					r.Violate("connection-unusable", "after round", "the NOOP after round %d failed: %v (a NO/BAD or literal refusal of one command must not affect the connection)", ri, err)
 					return
